@@ -129,6 +129,18 @@ def configs(tier, seed):
             _replace_leaf(t, [pos], bad)
             out.append({"acc": cfg["acc"], "tree": t, "style": cfg["style"], "table": True, "must_reject": True})
         k += 1
+    # one user-defined action class used with several access modes in one register: every instance is checked, a
+    # servable one before an unservable one excuses nothing
+    F = lambda mode, w=2: {"leaf": f"Flex:{mode}", "shape": ["u", w]}
+    for acc, members in (("r", [F("r"), F("w")]), ("w", [F("w"), F("r")]), ("r", [F("nc"), F("r"), F("rw")]),
+                         ("w", [F("w"), F("nc"), F("rw")])):
+        out.append({"acc": acc, "tree": {"dict": [[f"f{i}", m] for i, m in enumerate(members)]}, "style": "arg", "table": True,
+                    "must_reject": True})
+        out.append({"acc": acc, "tree": {"dict": [["g", {"dict": [[f"f{i}", m] for i, m in enumerate(members[:-1])]}], ["last", members[-1]]]},
+                    "style": "arg", "table": True, "must_reject": True})
+    for acc, members in (("r", [F("r"), F("nc"), F("r")]), ("rw", [F("r"), F("w"), F("rw")])):
+        out.append({"acc": acc, "tree": {"dict": [[f"f{i}", m] for i, m in enumerate(members)]}, "style": "arg", "table": True,
+                    "must_accept": True})
     # access-compatibility rejection table (executed, not solved)
     for facc in ("R", "W", "RW", "ResRAW0"):
         for racc in ("r", "w", "rw"):
@@ -178,7 +190,19 @@ def _replace_leaf(tree, pos, act):
                         kids[j]["dup"] = True
 
 
+class _Flex(csr.FieldAction):
+    """a user-defined field action whose access mode is a constructor argument (one class, several modes)"""
+    def __init__(self, shape, access):
+        super().__init__(shape, access=access)
+
+    def elaborate(self, platform):
+        from amaranth.hdl import Module
+        return Module()
+
+
 def _to_fields(tree):
+    if "leaf" in tree and tree["leaf"].startswith("Flex:"):
+        return csr.Field(_Flex, _shape(tree["shape"]), access=tree["leaf"][5:])
     if "leaf" in tree:
         cls = getattr(action, tree["leaf"])
         return csr.Field(cls, _shape(tree["shape"]))
@@ -323,6 +347,8 @@ def _structural(cfg):
 def _table(cfg):
     if cfg.get("must_reject"):
         should_reject = True
+    elif cfg.get("must_accept"):
+        should_reject = False
     else:
         mode = ACTIONS[cfg["tree"]["leaf"]]
         should_reject = ("r" in mode and "r" not in cfg["acc"]) or ("w" in mode and "w" not in cfg["acc"])
